@@ -54,6 +54,32 @@ func mainEnabled(method string) func(ssa.Value) bool {
 	}
 }
 
+// eachMainInstr: every instruction of main and of its start-up helpers (mainScope).
+func (c *Ctx) eachMainInstr(f func(in ssa.Instruction)) {
+	for _, fn := range c.mainScope() {
+		eachInstr(fn, f)
+	}
+}
+
+// mainCallsTo: calls to names in main and its start-up helpers.
+func (c *Ctx) mainCallsTo(names ...string) []ssa.CallInstruction {
+	var out []ssa.CallInstruction
+	for _, fn := range c.mainScope() {
+		out = append(out, callsTo(fn, names...)...)
+	}
+	return out
+}
+
+// inMainScope: fn is main or one of its start-up helpers.
+func (c *Ctx) inMainScope(fn *ssa.Function) bool {
+	for _, f := range c.mainScope() {
+		if f == fn {
+			return true
+		}
+	}
+	return false
+}
+
 // mainScope: main and the named helpers in its package that are only ever called, statically,
 // from main (route-registration helpers).
 func (c *Ctx) mainScope() []*ssa.Function {
@@ -664,7 +690,7 @@ func c05Challenge(c *Ctx) {
 	// 401 + WWW-Authenticate on refusals
 	check401 := func(fn *ssa.Function) {
 		has401, hasHdr := false, false
-		eachInstrDeep(fn, func(_ *ssa.Function, in ssa.Instruction) {
+		scan := func(in ssa.Instruction) {
 			ci, ok := in.(ssa.CallInstruction)
 			if !ok {
 				return
@@ -679,7 +705,25 @@ func c05Challenge(c *Ctx) {
 					hasHdr = true
 				}
 			}
-		})
+		}
+		// the middleware, its closures, and the helpers they call (e.g. an unauthorized(w) method)
+		seenFn := map[*ssa.Function]bool{}
+		var visit func(f *ssa.Function, d int)
+		visit = func(f *ssa.Function, d int) {
+			for _, sf := range scopeFuncs(f, 1) {
+				if seenFn[sf] {
+					continue
+				}
+				seenFn[sf] = true
+				eachInstr(sf, scan)
+				if d < 1 {
+					for _, a := range sf.AnonFuncs {
+						visit(a, d+1)
+					}
+				}
+			}
+		}
+		visit(fn, 0)
 		c.Check(has401 && hasHdr, rule, shortFn(fn)+" 401", fn.Pos(), "answers 401 with WWW-Authenticate", "the refusing branch does not answer 401 with a WWW-Authenticate challenge")
 	}
 	check401(c.Fn("cmd/rdpgw/web", "AuthMux.SetAuthenticate"))
